@@ -28,6 +28,16 @@ import (
 )
 
 const verifDir = "/verif"
+
+// outDir is where evidence and replay files go: /verif/<kind>, or
+// $VSIM_OUT/<kind> for trial runs against a deliberately broken tree (whose
+// evidence must not replace the evidence of the unchanged tree).
+func outDir(kind string) string {
+	if v := os.Getenv("VSIM_OUT"); v != "" {
+		return filepath.Join(v, kind)
+	}
+	return filepath.Join(verifDir, kind)
+}
 const repoDir = "/repo"
 
 var instrPkgs = []string{
@@ -299,7 +309,7 @@ func check(prop, tier string) int {
 		budget, _ = strconv.Atoi(v)
 	}
 	np := nproc()
-	replayDir := filepath.Join(verifDir, "replays")
+	replayDir := outDir("replays")
 	os.MkdirAll(replayDir, 0755)
 	workDir := filepath.Join(b.scratch, "work")
 	os.MkdirAll(workDir, 0755)
@@ -429,7 +439,7 @@ func report(prop, tier string, baseSeed uint64, pc *propCfg, b *build, results [
 				seed, _ := strconv.ParseUint(r.curSeed, 10, 64)
 				sig := prop + "/process-death/" + fatalKind(r.output)
 				rf := map[string]interface{}{"property": prop, "scenario": "", "seed": seed, "signature": sig, "detail": tail, "workload": nil, "tier": tier, "note": "worker process died; replay regenerates the case from the seed"}
-				name := filepath.Join(verifDir, "replays", fmt.Sprintf("%s-%d-death.json", prop, seed))
+				name := filepath.Join(outDir("replays"), fmt.Sprintf("%s-%d-death.json", prop, seed))
 				rb, _ := json.MarshalIndent(rf, "", " ")
 				os.WriteFile(name, rb, 0644)
 				viols = append(viols, viol{sig, tail, name, seed})
@@ -544,8 +554,8 @@ func report(prop, tier string, baseSeed uint64, pc *propCfg, b *build, results [
 		"known_findings_observed": knownSeen,
 	}
 	eb, _ := json.MarshalIndent(ev, "", " ")
-	os.MkdirAll(filepath.Join(verifDir, "evidence"), 0755)
-	if err := os.WriteFile(filepath.Join(verifDir, "evidence", prop+".json"), eb, 0644); err != nil {
+	os.MkdirAll(outDir("evidence"), 0755)
+	if err := os.WriteFile(filepath.Join(outDir("evidence"), prop+".json"), eb, 0644); err != nil {
 		die(2, "cannot write evidence: %v", err)
 	}
 	fmt.Printf("property=%s tier=%s runs=%d distinct_nontrivial=%d steps=%d interleavings=%d violations=%d inconclusive=%v wall=%.1fs (build %.1fs)\n",
